@@ -28,10 +28,13 @@ ClientDelivers(src, anyPort, firstSeen) ==
 DgramCases == {[kind |-> "dgram", side |-> s, src |-> r, anyPort |-> a, firstSeen |-> f, proto |-> p] :
                  s \in Sides, r \in Srcs, a \in BOOLEAN, f \in BOOLEAN, p \in {"rtp", "rtcp"}}
 ValidDgram == {c \in DgramCases : (c.side = "server" => ~c.anyPort)}
-StealCases == {[kind |-> "steal", how |-> h, state |-> st, method |-> m] :
-                 h \in {"ip", "conn"}, st \in States, m \in {"PLAY", "PAUSE", "TEARDOWN", "SETUP", "GET_PARAMETER"}}
+\* early: the other connection already presented the session id (a harmless OPTIONS, answered)
+\* while the session was being set up, before it started to stream
+StealCases == {[kind |-> "steal", how |-> h, state |-> st, method |-> m, early |-> e] :
+                 h \in {"ip", "conn"}, st \in States, m \in {"PLAY", "PAUSE", "TEARDOWN", "SETUP", "GET_PARAMETER"},
+                 e \in BOOLEAN}
 \* "conn" applies while the session streams over an interleaved connection
-ValidSteal == {c \in StealCases : c.how = "conn" => c.state \in {"play", "record"}}
+ValidSteal == {c \in StealCases : (c.how = "conn" => c.state \in {"play", "record"}) /\ (c.early => c.how = "conn")}
 \* liveness bookkeeping on either side: the server's session timeouts, the client's UDP timeout
 KeepCases == {[kind |-> "keepalive", side |-> "server", src |-> r, state |-> st] : r \in Srcs, st \in {"play", "record"}}
              \cup {[kind |-> "keepalive", side |-> "client", src |-> r, state |-> "play"] : r \in Srcs}
